@@ -268,8 +268,12 @@ func decodePlaceholder(s string) int {
 		return 0
 	}
 
-	i, _ := strconv.Atoi(s[1:])
-	return i
+	i, err := strconv.ParseInt(s[1:], 10, 32)
+	if err != nil {
+		return 0
+	}
+
+	return int(i)
 }
 
 func (p *parser) parseFieldList() []string {
